@@ -282,6 +282,17 @@ type ProfileEmptyKeyClaims struct {
 	Profile string `cbor:",omitempty" json:"profile,omitempty"`
 }
 
+// LookalikeNameClaims has NO profile field either: fields whose Go names merely
+// END in / start with / contain "Profile" (DeviceProfile, ProfileVersion,
+// Profiles, profile), none keyed 265 / -75000.
+type LookalikeNameClaims struct {
+	psatoken.IClaims
+	DeviceProfile  *string `json:"device-profile,omitempty"`
+	ProfileVersion *string `json:"profile-version,omitempty"`
+	Profiles       *string `cbor:"-75100,keyasint,omitempty" json:"profiles,omitempty"`
+	EatProfile     *string `json:"eat-profile-label,omitempty"`
+}
+
 // dynProfile: a profile of a given shape under an arbitrary name.
 type dynProfile struct {
 	name  string
@@ -307,6 +318,8 @@ func (d dynProfile) GetClaims() psatoken.IClaims {
 		return &NoProfClaims{}
 	case "lookalike-keys":
 		return &LookalikeKeyClaims{}
+	case "lookalike-names":
+		return &LookalikeNameClaims{}
 	case "profile-cbor-dash":
 		return &ProfileDashClaims{}
 	case "profile-cbor-empty-key":
